@@ -291,8 +291,9 @@ def compileBlocks (scopeName : String) : List Stmt → Option (List Block)
       | .builder .. | .scopeValue .. | .body .. => some []
       | .paramsFrom _ "params" => some [.grant]
       | .paramsFrom .. => none
-      | .push { name, value := .src "it", cond := some sc } => if sc = scopeName then some [.scope name] else none
-      | .push { name, value := .src "it.as_str()", cond := some "redirect_url" } => some [.redirect name]
+      -- `if let Some(it) = <the scope value> / redirect_url { params.push((name, it)) }` (`it` as text: mini::text_view)
+      | .push { name, value := .src "it", cond := some sc } =>
+        if sc = scopeName then some [.scope name] else if sc = "redirect_url" then some [.redirect name] else none
       | .push _ => none
       | .authMatch ["auth_type", "client_secret"] arms => (compileMatch arms).map fun rows => [.cred rows]
       | .authMatch .. => none
